@@ -105,7 +105,10 @@ SymApi == {"norm([x,0,0])", "norm((0,y,0))", "norm(array[0,0,2z])", "normsq([x,0
            "SE3.Eul", "SE3.RPY", "SE3.Delta", "SE3(x,y,z)", "SE3.t", "SE3.R", "SE3.inv", "SE3.Ad", "SE3.jacob",
            "Twist3.Rx", "Twist3.Ry", "Twist3.Rz"} \cup SymOptions
 SymExprs == {"SE3.Rx*SE3.Tx", "SE3.Rz*SE3.Ry*SE3.Rx", "(SE3.Rx*SE3.Ty).inv", "SE3.Rx*SE3.Tx*point", "SO3.Rx*SO3.Ry",
-             "SO3.Rz.inv", "SO3.Rx*point", "SE3.Rx*SE3.Rx.inv", "SE3.Rz**2", "SE3.Tx/SE3.Rz"}
+             "SO3.Rz.inv", "SO3.Rx*point", "SE3.Rx*SE3.Rx.inv", "SE3.Rz**2", "SE3.Tx/SE3.Rz",
+             \* points with symbolic coordinates in every container form; a pose combined with a (symbolic) scalar
+             "SE3*point[list]", "SE3*point[tuple]", "SE3*point[ndarray]", "SE3*point[column]", "SO3*point[ndarray]",
+             "SE3*points[3xN]", "SE3*scalar", "scalar*SE3", "SE3/scalar", "SO3+scalar", "SO3-scalar"}
 SymModes == {"all-symbolic", "mixed", "mixed-number-first"}     \* which positions of a packed argument are plain numbers
 \* entries whose argument (or receiver) is a matrix: the symbolic matrix is composed in several ways, because a
 \* one-axis rotation has so many structural zeros that most entries of a formula are never exercised
